@@ -522,10 +522,11 @@ func (e *EdgeQuery) maybeAddResult(shape Shape, shapeID, edgeID int32) {
 
 func (e *EdgeQuery) findEdgesBruteForce() {
 	verifCount("edgequery.brute")
-	// Range over all shapes in the index. Does order matter here? if so
-	// switch to for i = 0 .. n?
-	for shapeID, shape := range e.index.shapes {
-		// TODO(roberts): can this happen if we are only ranging over current entries?
+	// Visit the shapes in increasing id order. The order matters: with
+	// MaxResults == 1 the first of several equally distant edges wins, and
+	// ranging over the shape map would make that choice random.
+	for shapeID := int32(0); shapeID < e.index.nextID; shapeID++ {
+		shape := e.index.Shape(shapeID)
 		if shape == nil {
 			continue
 		}
